@@ -617,3 +617,66 @@ func extractInproc(p *pkgs, out string) {
 	ord("finishFrameOrder", frameKindsWritten(fin))
 	must(l.finish(out))
 }
+
+// ---------------------------------------------------------------------------
+// in-process method-name handling
+
+func extractResolve(p *pkgs, out string) {
+	l := newLean("Resolve.lean", "inprocgrpc Invoke/NewStream: guards in front of the method-name indexing")
+	pk := p.byPath[mod+"/inprocgrpc"]
+	for _, fn := range []struct{ goName, prefix string }{{"Invoke", "invoke"}, {"NewStream", "newStream"}} {
+		_, fd := p.methodDecl(mod+"/inprocgrpc", "Channel", fn.goName)
+		if fd == nil || pk == nil {
+			fail("inprocgrpc/in_process.go", fn.prefix, "%s not found", fn.goName)
+			continue
+		}
+		guardEmpty, checkLen := false, false
+		ast.Inspect(fd, func(n ast.Node) bool {
+			ifs, ok := n.(*ast.IfStmt)
+			if !ok {
+				return true
+			}
+			ast.Inspect(ifs.Cond, func(m ast.Node) bool {
+				be, ok := m.(*ast.BinaryExpr)
+				if !ok {
+					return true
+				}
+				// method == ""  (or len(method) == 0)
+				if be.Op == token.EQL {
+					if id, ok := be.X.(*ast.Ident); ok && id.Name == "method" {
+						if s, ok := constStr(pk, be.Y); ok && s == "" {
+							guardEmpty = true
+						}
+					}
+					if call, ok := be.X.(*ast.CallExpr); ok {
+						if f, ok := call.Fun.(*ast.Ident); ok && f.Name == "len" && len(call.Args) == 1 {
+							if id, ok := call.Args[0].(*ast.Ident); ok && id.Name == "method" {
+								if v, ok := constInt(pk, be.Y); ok && v == 0 {
+									guardEmpty = true
+								}
+							}
+						}
+					}
+				}
+				// len(strs) != 2 / < 2 followed by a return
+				if be.Op == token.NEQ || be.Op == token.LSS {
+					if call, ok := be.X.(*ast.CallExpr); ok {
+						if f, ok := call.Fun.(*ast.Ident); ok && f.Name == "len" && len(call.Args) == 1 {
+							if id, ok := call.Args[0].(*ast.Ident); ok && id.Name == "strs" {
+								if v, ok := constInt(pk, be.Y); ok && v == 2 && len(ifs.Body.List) > 0 {
+									if _, ok := ifs.Body.List[len(ifs.Body.List)-1].(*ast.ReturnStmt); ok {
+										checkLen = true
+									}
+								}
+							}
+						}
+					}
+				}
+				return true
+			})
+			return true
+		})
+		l.printf("def %sGuardEmpty : Bool := %v\ndef %sCheckLen : Bool := %v\n", fn.prefix, guardEmpty, fn.prefix, checkLen)
+	}
+	must(l.finish(out))
+}
